@@ -12,7 +12,8 @@ TITLE = "The gradient handed to optimisers is the derivative of cost"
 RULE = ("Cases as in C06 plus: target_param subsets in a generated order, target_state subsets in a generated order, integrator method in "
         "{None, lsoda, vode, dopri5}, entry point in {sensitivity, gradient, sensitivity(full_output=True), sensitivityIV, jac} "
         "(jac(theta) is compared as a set of columns with the reference sensitivities of the observed states; its layout is "
-        "recorded, not judged). Models as in C06 incl. catalogue entries and container/dtype forms. Oracle: reference "
+        "recorded, not judged). In half of the cases 1-2 further calls (sensitivity, gradient, sensitivityIV, cost) follow on the SAME "
+        "loss object at other parameters / initial values; each must be right at its own point. Models as in C06 incl. catalogue entries and container/dtype forms. Oracle: reference "
         "gradient g_k = sum_{i,s} dloss/dyhat_is * dx_s(t_i)/d(free variable k) with dx/dtheta, dx/dx0 from own variational equations on the "
         "abstract model (jets) and dloss/dyhat from mpmath derivatives of the reference log-densities (weights enter for Square and Normal "
         "only), ordered as the free variables were supplied: parameters in target_param order, then initial values in target_state order; "
